@@ -94,6 +94,7 @@ def run(ctx, rep):
     check_thick_segment(prog, rep)
     triangle_collapse(prog, rep)
     underline_in_box(prog, rep)
+    line_box(prog, rep)
     from rules import axis
     axis.run_for(ctx.program("default"), rep, 'R02.6', ['src/primitives/rectangle/styled.rs', 'src/primitives/triangle/styled.rs', 'src/primitives/polyline/styled.rs', 'src/primitives/line/styled.rs', 'src/text', 'src/mono_font', 'src/image'], 'bounding boxes and drawn rectangles are built per axis')
 
@@ -476,3 +477,48 @@ def underline_in_box(prog, rep):
         bad.append("the box leaves the underline out on a path where one can be drawn (underline_color %s, text_color %s)" % (sorted(u) if u else "any", sorted(t) if t else "any"))
     rep.check(not bad and n_with >= 1 and n_without >= 1, "R02.8", "measure_string:underline",
               "measure_string must include the underline rows whenever draw_decorations can draw an underline: %s" % ("; ".join(sorted(set(bad))[:2]) or "paths with/without underline rows: %d/%d" % (n_with, n_without)), at=ms.span, fn=ms.path)
+
+
+def line_box(prog, rep):
+    """R02.9 the styled box of a Line spans, on every path, exactly the four end points of the two outermost parallels
+    `self.extents(style.stroke_width, StrokeOffset::None)` — the same walk (ParallelsIterator) the renderer strokes with.
+    A box derived any other way (a closed formula for axis-parallel lines, say) cannot be related to the stroke by this
+    analysis and is reported as undecided."""
+    from mirq.paths import Paths, Unsupported
+    cands = [f for f in prog.fns.values() if f.body and f.name == "styled_bounding_box" and "primitives::line::styled" in f.id]
+    if len(cands) != 1:
+        rep.check(False, "R02.9", "line:styled-box", "anchor lost (%d)" % len(cands), status="undecided")
+        return
+    f = cands[0]
+    ps_w = field_index(prog, "embedded_graphics::primitives::primitive_style::PrimitiveStyle", "stroke_width")
+    ext = ("call", "*Line::extents", "_", (("param", 1, "self"), ("field", ("param", 2, "style"), ps_w), ("agg", "*StrokeOffset::None", ())))
+    bad = []
+    try:
+        summs = Paths(prog, inline=lambda g: prog.is_new(g)).of(f)
+    except Unsupported as e:
+        summs = []
+        bad.append("cannot summarise: %s" % e)
+
+    def leaves(t, op):
+        t = strip_refs(t)
+        mm = match(t, ("call", "*Point::component_" + op, "_", ("?a", "?b")))
+        if mm is None:
+            return [t]
+        return leaves(mm["?a"], op) + leaves(mm["?b"], op)
+    for sm in summs:
+        m = match(strip_refs(sm.ret), ("call", "*Rectangle::with_corners", "_", ("?mn", "?mx"))) if sm.ret is not None else None
+        if m is None:
+            bad.append("a path returns %s" % show(sm.ret, maxd=3))
+            continue
+        for side, op in (("?mn", "min"), ("?mx", "max")):
+            pts = set()
+            for l_ in leaves(m[side], op):
+                mm = match(l_, ("field", ("field", "?e", "?i"), "?j"))
+                if mm is None or match(strip_refs(mm["?e"]), ext) is None or mm["?i"] not in (0, 1) or mm["?j"] not in (0, 1):
+                    bad.append("the %s corner takes %s into account" % (op, show(l_, maxd=3)))
+                else:
+                    pts.add((mm["?i"], mm["?j"]))
+            if pts != {(0, 0), (0, 1), (1, 0), (1, 1)} and not any("takes" in b for b in bad):
+                bad.append("the %s corner covers only %d of the 4 end points of the outer parallels" % (op, len(pts)))
+    rep.check(not bad and len(summs) >= 1, "R02.9", "line:styled-box", "Line::styled_bounding_box must be with_corners(min, max) over the four end points of extents(stroke_width, None): %s" % "; ".join(sorted(set(bad))[:2]),
+              at=f.span, fn=f.path, status="refuted" if any("covers only" in b for b in bad) else "undecided")
